@@ -3,12 +3,14 @@
    check accepts and every sequence of logged draws whose random_bits values are not negative, whatever spok_gen returns
    passes spok_verify (nine-response protocol: nisp5_complete; per-attribute opening proofs: nisp2sec_complete_u; all range
    proofs: boudot_complete); an accepted proof has its range proof on e made for the commitment Ce of the sigma protocol
-   and passes the five-equation check; the per-attribute opening proofs (nisp2sec) are specially sound and rigid (ClSound2.v).  Rejection of mismatching statements / edited fields: correspondence + sweep
+   and passes the five-equation check; the per-attribute opening proofs (nisp2sec) are specially sound and rigid (ClSound2.v);
+   the nine-response protocol is specially sound (ClSound3.v: five relations sharing ds4, ds8 and the per-position exponent differences).  Rejection of mismatching statements / edited fields: correspondence + sweep
    (all subsets U for n <= 3 / 5). *)
 From ZK Require Import Cl ClArith ClSig ClMore ClGroup ClBoudot ModelLemmas ClSpok ClSpok2 ClSpok3.
 From ZK Require Import ClTies.
 From ZK Require Import ClConsts ClExample.
-From ZK Require Import ClSound ClSound2.
+From ZK Require Import ClSound ClSound2 ClSound3.
+From Coq Require Import List. Import ListNotations.
 
 Theorem C15_spok_accepts_ties_Ce :
   forall CS BP p ck pk bases rmsgs U nsm,
@@ -240,3 +242,219 @@ ns_t p = ns_t p' ->
 Zdiv.eqm n
   (gp n g gi (ns_s1 p - ns_s1 p') * gp n h hi (ns_s2 p - ns_s2 p')) 1)%Z).
 Print Assumptions C15_nisp2sec_rigid.
+
+(* acceptance of the nine-response proof = its five recomputed first messages hash to the challenge, one response per hidden position *)
+Theorem C15_nisp5_verify_firsts :
+  (forall (p : spok) (ck : cpubkey) (pk : pubkey) 
+  (bases rmsgs : list Z) (U : list N) (nsm : nat),
+nisp5_verify p ck pk bases rmsgs U nsm = Ok true ->
+exists l : list Z,
+  nisp5_firsts p ck pk bases rmsgs U nsm = Ok l /\
+  hash_int (str_cat l) = sp_chal p /\ length (sp_s5 p) = length U)%Z.
+Proof. exact nisp5_verify_firsts. Qed.
+Check (C15_nisp5_verify_firsts :
+  (forall (p : spok) (ck : cpubkey) (pk : pubkey) 
+  (bases rmsgs : list Z) (U : list N) (nsm : nat),
+nisp5_verify p ck pk bases rmsgs U nsm = Ok true ->
+exists l : list Z,
+  nisp5_firsts p ck pk bases rmsgs U nsm = Ok l /\
+  hash_int (str_cat l) = sp_chal p /\ length (sp_s5 p) = length U)%Z).
+Print Assumptions C15_nisp5_verify_firsts.
+
+(* the five first messages as products of powers (the walk over the attribute positions included) *)
+Theorem C15_nisp5_firsts_spec :
+  (forall n : Z,
+0 < n ->
+forall (ck : cpubkey) (pk : pubkey) (bases rmsgs : list Z)
+  (U : list N) (nsm : nat) (selA selG : list (Z * Z))
+  (g0 ig0 ig0i ib ibi ih ihi ci : Z),
+pk_N pk = n ->
+mapM (nthZ bases) (idxs 0 nsm) = Ok (map fst selA) ->
+mapM (nthZ (ck_g ck)) (idxs 0 nsm) = Ok (map fst selG) ->
+units n selA ->
+units n selG ->
+nthZ (ck_g ck) 0 = Ok g0 ->
+inv_of g0 n = Ok ig0 ->
+invert ig0 n = Some ig0i ->
+inv_of (pk_b pk) n = Ok ib ->
+invert ib n = Some ibi ->
+inv_of (ck_h ck) n = Ok ih ->
+invert ih n = Some ihi ->
+invert (pk_c pk) n = Some ci ->
+forall (p : spok) (l : list Z) (Cvi Cwi Cxi Cei : Z),
+invert (c_value (sp_Cv p)) n = Some Cvi ->
+invert (c_value (sp_Cw p)) n = Some Cwi ->
+invert (c_value (sp_Cx p)) n = Some Cxi ->
+invert (c_value (sp_Ce p)) n = Some Cei ->
+nisp5_firsts p ck pk bases rmsgs U nsm = Ok l ->
+exists (dA : list Z) (itcx : Z),
+  wexp (sp_s5 p) rmsgs (sp_chal p) U nsm 0 = Some dA /\
+  Zdiv.eqm n (gprod n selA dA * itcx) 1 /\
+  l =
+  [(gp n (c_value (sp_Cv p)) Cvi (sp_s4 p) * itcx *
+    IB n ib ibi (sp_s6 p) * IG0 n ig0 ig0i (sp_s8 p) *
+    CC n pk ci (- sp_chal p)) mod n;
+   (G0 n g0 ig0 (sp_s7 p) * HH n ck ih (sp_s1 p) *
+    gp n (c_value (sp_Cw p)) Cwi (- sp_chal p)) mod n;
+   (gp n (c_value (sp_Cw p)) Cwi (sp_s4 p) * IG0 n ig0 ig0i (sp_s8 p) *
+    IH n ih ihi (sp_s2 p)) mod n;
+   (gprod n selG dA * HH n ck ih (sp_s3 p) *
+    gp n (c_value (sp_Cx p)) Cxi (- sp_chal p)) mod n;
+   (G0 n g0 ig0 (sp_s4 p) * HH n ck ih (sp_s9 p) *
+    gp n (c_value (sp_Ce p)) Cei (- sp_chal p)) mod n])%Z.
+Proof. exact nisp5_firsts_spec. Qed.
+Check (C15_nisp5_firsts_spec :
+  (forall n : Z,
+0 < n ->
+forall (ck : cpubkey) (pk : pubkey) (bases rmsgs : list Z)
+  (U : list N) (nsm : nat) (selA selG : list (Z * Z))
+  (g0 ig0 ig0i ib ibi ih ihi ci : Z),
+pk_N pk = n ->
+mapM (nthZ bases) (idxs 0 nsm) = Ok (map fst selA) ->
+mapM (nthZ (ck_g ck)) (idxs 0 nsm) = Ok (map fst selG) ->
+units n selA ->
+units n selG ->
+nthZ (ck_g ck) 0 = Ok g0 ->
+inv_of g0 n = Ok ig0 ->
+invert ig0 n = Some ig0i ->
+inv_of (pk_b pk) n = Ok ib ->
+invert ib n = Some ibi ->
+inv_of (ck_h ck) n = Ok ih ->
+invert ih n = Some ihi ->
+invert (pk_c pk) n = Some ci ->
+forall (p : spok) (l : list Z) (Cvi Cwi Cxi Cei : Z),
+invert (c_value (sp_Cv p)) n = Some Cvi ->
+invert (c_value (sp_Cw p)) n = Some Cwi ->
+invert (c_value (sp_Cx p)) n = Some Cxi ->
+invert (c_value (sp_Ce p)) n = Some Cei ->
+nisp5_firsts p ck pk bases rmsgs U nsm = Ok l ->
+exists (dA : list Z) (itcx : Z),
+  wexp (sp_s5 p) rmsgs (sp_chal p) U nsm 0 = Some dA /\
+  Zdiv.eqm n (gprod n selA dA * itcx) 1 /\
+  l =
+  [(gp n (c_value (sp_Cv p)) Cvi (sp_s4 p) * itcx *
+    IB n ib ibi (sp_s6 p) * IG0 n ig0 ig0i (sp_s8 p) *
+    CC n pk ci (- sp_chal p)) mod n;
+   (G0 n g0 ig0 (sp_s7 p) * HH n ck ih (sp_s1 p) *
+    gp n (c_value (sp_Cw p)) Cwi (- sp_chal p)) mod n;
+   (gp n (c_value (sp_Cw p)) Cwi (sp_s4 p) * IG0 n ig0 ig0i (sp_s8 p) *
+    IH n ih ihi (sp_s2 p)) mod n;
+   (gprod n selG dA * HH n ck ih (sp_s3 p) *
+    gp n (c_value (sp_Cx p)) Cxi (- sp_chal p)) mod n;
+   (G0 n g0 ig0 (sp_s4 p) * HH n ck ih (sp_s9 p) *
+    gp n (c_value (sp_Ce p)) Cei (- sp_chal p)) mod n])%Z).
+Print Assumptions C15_nisp5_firsts_spec.
+
+(* SPECIAL SOUNDNESS of the nine-response protocol: two tuples for the same five first messages give the five relations the extractor uses *)
+Theorem C15_nisp5_special_soundness :
+  (forall n : Z,
+0 < n ->
+forall (ck : cpubkey) (pk : pubkey) (bases rmsgs : list Z)
+  (U : list N) (nsm : nat) (selA selG : list (Z * Z))
+  (g0 ig0 ig0i ib ibi ih ihi ci : Z),
+pk_N pk = n ->
+mapM (nthZ bases) (idxs 0 nsm) = Ok (map fst selA) ->
+mapM (nthZ (ck_g ck)) (idxs 0 nsm) = Ok (map fst selG) ->
+units n selA ->
+units n selG ->
+nthZ (ck_g ck) 0 = Ok g0 ->
+inv_of g0 n = Ok ig0 ->
+invert ig0 n = Some ig0i ->
+inv_of (pk_b pk) n = Ok ib ->
+invert ib n = Some ibi ->
+inv_of (ck_h ck) n = Ok ih ->
+invert ih n = Some ihi ->
+invert (pk_c pk) n = Some ci ->
+forall (p p' : spok) (l : list Z) (Cvi Cwi Cxi Cei : Z),
+sp_Cv p = sp_Cv p' ->
+sp_Cw p = sp_Cw p' ->
+sp_Cx p = sp_Cx p' ->
+sp_Ce p = sp_Ce p' ->
+invert (c_value (sp_Cv p)) n = Some Cvi ->
+invert (c_value (sp_Cw p)) n = Some Cwi ->
+invert (c_value (sp_Cx p)) n = Some Cxi ->
+invert (c_value (sp_Ce p)) n = Some Cei ->
+nisp5_firsts p ck pk bases rmsgs U nsm = Ok l ->
+nisp5_firsts p' ck pk bases rmsgs U nsm = Ok l ->
+exists dA dA' : list Z,
+  wexp (sp_s5 p) rmsgs (sp_chal p) U nsm 0 = Some dA /\
+  wexp (sp_s5 p') rmsgs (sp_chal p') U nsm 0 = Some dA' /\
+  (let dc := sp_chal p - sp_chal p' in
+   Zdiv.eqm n
+     (gprod n
+        ([(c_value (sp_Cv p), Cvi); (ib, ibi); (
+          ig0, ig0i); (pk_c pk, ci)] ++ selA)
+        ([sp_s4 p - sp_s4 p'; sp_s6 p - sp_s6 p'; 
+          sp_s8 p - sp_s8 p'; - dc] ++ vsub dA' dA)) 1 /\
+   Zdiv.eqm n
+     (G0 n g0 ig0 (sp_s7 p - sp_s7 p') *
+      HH n ck ih (sp_s1 p - sp_s1 p'))
+     (gp n (c_value (sp_Cw p)) Cwi dc) /\
+   Zdiv.eqm n
+     (gp n (c_value (sp_Cw p)) Cwi (sp_s4 p - sp_s4 p') *
+      IG0 n ig0 ig0i (sp_s8 p - sp_s8 p') *
+      IH n ih ihi (sp_s2 p - sp_s2 p')) 1 /\
+   Zdiv.eqm n
+     (gprod n selG (vsub dA dA') * HH n ck ih (sp_s3 p - sp_s3 p'))
+     (gp n (c_value (sp_Cx p)) Cxi dc) /\
+   Zdiv.eqm n
+     (G0 n g0 ig0 (sp_s4 p - sp_s4 p') *
+      HH n ck ih (sp_s9 p - sp_s9 p'))
+     (gp n (c_value (sp_Ce p)) Cei dc)))%Z.
+Proof. exact nisp5_special_soundness. Qed.
+Check (C15_nisp5_special_soundness :
+  (forall n : Z,
+0 < n ->
+forall (ck : cpubkey) (pk : pubkey) (bases rmsgs : list Z)
+  (U : list N) (nsm : nat) (selA selG : list (Z * Z))
+  (g0 ig0 ig0i ib ibi ih ihi ci : Z),
+pk_N pk = n ->
+mapM (nthZ bases) (idxs 0 nsm) = Ok (map fst selA) ->
+mapM (nthZ (ck_g ck)) (idxs 0 nsm) = Ok (map fst selG) ->
+units n selA ->
+units n selG ->
+nthZ (ck_g ck) 0 = Ok g0 ->
+inv_of g0 n = Ok ig0 ->
+invert ig0 n = Some ig0i ->
+inv_of (pk_b pk) n = Ok ib ->
+invert ib n = Some ibi ->
+inv_of (ck_h ck) n = Ok ih ->
+invert ih n = Some ihi ->
+invert (pk_c pk) n = Some ci ->
+forall (p p' : spok) (l : list Z) (Cvi Cwi Cxi Cei : Z),
+sp_Cv p = sp_Cv p' ->
+sp_Cw p = sp_Cw p' ->
+sp_Cx p = sp_Cx p' ->
+sp_Ce p = sp_Ce p' ->
+invert (c_value (sp_Cv p)) n = Some Cvi ->
+invert (c_value (sp_Cw p)) n = Some Cwi ->
+invert (c_value (sp_Cx p)) n = Some Cxi ->
+invert (c_value (sp_Ce p)) n = Some Cei ->
+nisp5_firsts p ck pk bases rmsgs U nsm = Ok l ->
+nisp5_firsts p' ck pk bases rmsgs U nsm = Ok l ->
+exists dA dA' : list Z,
+  wexp (sp_s5 p) rmsgs (sp_chal p) U nsm 0 = Some dA /\
+  wexp (sp_s5 p') rmsgs (sp_chal p') U nsm 0 = Some dA' /\
+  (let dc := sp_chal p - sp_chal p' in
+   Zdiv.eqm n
+     (gprod n
+        ([(c_value (sp_Cv p), Cvi); (ib, ibi); (
+          ig0, ig0i); (pk_c pk, ci)] ++ selA)
+        ([sp_s4 p - sp_s4 p'; sp_s6 p - sp_s6 p'; 
+          sp_s8 p - sp_s8 p'; - dc] ++ vsub dA' dA)) 1 /\
+   Zdiv.eqm n
+     (G0 n g0 ig0 (sp_s7 p - sp_s7 p') *
+      HH n ck ih (sp_s1 p - sp_s1 p'))
+     (gp n (c_value (sp_Cw p)) Cwi dc) /\
+   Zdiv.eqm n
+     (gp n (c_value (sp_Cw p)) Cwi (sp_s4 p - sp_s4 p') *
+      IG0 n ig0 ig0i (sp_s8 p - sp_s8 p') *
+      IH n ih ihi (sp_s2 p - sp_s2 p')) 1 /\
+   Zdiv.eqm n
+     (gprod n selG (vsub dA dA') * HH n ck ih (sp_s3 p - sp_s3 p'))
+     (gp n (c_value (sp_Cx p)) Cxi dc) /\
+   Zdiv.eqm n
+     (G0 n g0 ig0 (sp_s4 p - sp_s4 p') *
+      HH n ck ih (sp_s9 p - sp_s9 p'))
+     (gp n (c_value (sp_Ce p)) Cei dc)))%Z).
+Print Assumptions C15_nisp5_special_soundness.
